@@ -97,7 +97,14 @@ def check_via_ctor(model, rep):
             for n in walk_no_nested(m.node):
                 # who-may-write the private value/unit fields
                 if isinstance(n, ast.Attribute) and isinstance(n.ctx, ast.Store) and n.attr in ('__value', '__unit'):
-                    if m.name not in ('__init__', 'to'):
+                    # a private helper (`__name`, not a dunder) of the class that only __init__ / to() of that class call is part of them
+                    private_helper = m.name.startswith('__') and not m.name.endswith('__')
+                    if private_helper:
+                        callers = {m2.name for m2 in ci.all_members() for c_ in walk_no_nested(m2.node)
+                                   if isinstance(c_, ast.Call) and isinstance(c_.func, ast.Attribute) and c_.func.attr == m.name}
+                        # (the name is mangled with the class: no other class can reach it by that spelling)
+                        private_helper = bool(callers) and callers <= {'__init__', 'to'}
+                    if m.name not in ('__init__', 'to') and not private_helper:
                         rep.violation('C19.via-ctor', f'{m.qualname}', f'writes the private field {n.attr} outside '
                                       f'__init__/to()', f'{m.module}:{n.lineno}')
                 if isinstance(n, ast.Return) and n.value is not None and m.name.startswith('__') and m.name.endswith('__') \
@@ -108,8 +115,26 @@ def check_via_ctor(model, rep):
                     rep.inspect()
                     v = n.value
 
+                    def bindings_of(node, name):
+                        """values assigned to local `name` in the function (simple and parallel tuple assignments)"""
+                        out = []
+                        for a in walk_no_nested(node):
+                            if not isinstance(a, ast.Assign):
+                                continue
+                            for t in a.targets:
+                                if isinstance(t, ast.Name) and t.id == name:
+                                    out.append(a.value)
+                                elif isinstance(t, (ast.Tuple, ast.List)) and isinstance(a.value, (ast.Tuple, ast.List)) \
+                                        and len(t.elts) == len(a.value.elts):
+                                    for te, ve in zip(t.elts, a.value.elts):
+                                        if isinstance(te, ast.Name) and te.id == name:
+                                            out.append(ve)
+                        return out
+
                     def helper_ok(hm, v, depth):
                         # the same judgement inside a helper method (its own locals)
+                        if isinstance(v, ast.Name) and v.id == 'self' and m.name == 'to':
+                            return True          # the in-place conversion hands back the receiver
                         if isinstance(v, ast.Call) and isinstance(v.func, ast.Name) and v.func.id in kinds:
                             return True
                         if isinstance(v, ast.Call) and isinstance(v.func, ast.Attribute) and v.func.attr == '__class__':
@@ -151,17 +176,32 @@ def check_via_ctor(model, rep):
                                     if isinstance(e, ast.Attribute) and e.attr == '__class__':
                                         return True
                                     return False
-                                binds = [a.value for a in walk_no_nested(m.node) if isinstance(a, ast.Assign)
-                                         and any(isinstance(t, ast.Name) and t.id == f.id for t in a.targets)]
+                                binds = bindings_of(m.node, f.id)
                                 if binds and all(is_kind(b) for b in binds):
                                     return True
+                                # a class taken from a table the method loops over (`for operand_class, product_class in TABLE:`):
+                                # the loop variable is local to the method and the table holds quantity classes only
+                                for lp in walk_no_nested(m.node):
+                                    if isinstance(lp, ast.For) and any(isinstance(t, ast.Name) and t.id == f.id for t in ast.walk(lp.target)) \
+                                            and not binds:
+                                        src = lp.iter
+                                        if isinstance(src, ast.Call) and isinstance(src.func, ast.Attribute) and src.func.attr == 'items' and not src.args:
+                                            src = src.func.value
+                                        table = None
+                                        if isinstance(src, ast.Attribute) and isinstance(src.value, ast.Name) and src.value.id in ('self', 'cls', k):
+                                            table = model.find_class_attr(k, src.attr)[1] or model.find_class_attr(k, model.mangle(k, src.attr))[1]
+                                        elif isinstance(src, (ast.Tuple, ast.List, ast.Dict)):
+                                            table = src
+                                        if table is not None:
+                                            names = [x.id for x in ast.walk(table) if isinstance(x, ast.Name)]
+                                            if names and all(x in kinds for x in names):
+                                                return True
                             return False
                         if isinstance(v, ast.Name) and v.id == 'self':
                             return m.name == 'to'
                         if isinstance(v, ast.Name) and depth < 3:
                             # a local: every binding of it in this method must itself be constructor-built
-                            binds = [a.value for a in walk_no_nested(m.node) if isinstance(a, ast.Assign)
-                                     and any(isinstance(t, ast.Name) and t.id == v.id for t in a.targets)]
+                            binds = bindings_of(m.node, v.id)
                             return bool(binds) and all(built_ok(b, depth + 1) for b in binds)
                         if isinstance(v, (ast.BinOp, ast.Compare, ast.Constant, ast.JoinedStr, ast.BoolOp, ast.UnaryOp)):
                             return True          # number / bool / string
